@@ -140,6 +140,20 @@ Section Progs.
     | PP_realpath loc => (fs, finish p (RKey (fs_realpath fs loc)))
     end.
 
+  (* ---- well-formed requests: keys are hexadecimal digests (in particular no key is another key followed by ".meta");
+          committed locations are visible names strictly below the data directory ---- *)
+  Definition is_name (c : comp) : bool := match c with CName _ => true | CTmp _ _ _ => false end.
+  Definition visible (p : path) : bool := forallb is_name p.
+  Definition good_key (k : bytes) : bool := all_hex k && negb (Nat.eqb (List.length k) 0).
+  Definition good_op (o : opcall) : Prop :=
+    match o with
+    | OpInit => True
+    | OpStore k | OpHas k | OpFetch k => good_key k = true
+    | OpSync items => forall loc k, In (loc, k) items ->
+                        good_key k = true /\ visible loc = true /\ exists segs, segs <> [] /\ loc = data ++ segs
+    | OpFetchPath loc => visible loc = true
+    end.
+
   (* ---- the system: shared file system + processes; any live process may take the next step, with any tear size;
           a crash removes a process ---- *)
   Record sys := Sys { s_fs : fsys; s_procs : list proc }.
@@ -159,13 +173,15 @@ Section Progs.
       nth_error (s_procs s) i = Some p ->
       sys_step s (Sys (s_fs s) (replace_nth i (fail p) (s_procs s)))
   | StepSpawn : forall s p,                                  (* a new process starts, with a fresh pid *)
-      p_pc p = PIdle -> p_cnt p = 0 -> p_outs p = [] ->
+      p_pc p = PIdle -> p_cnt p = 0 -> p_outs p = [] -> Forall good_op (p_todo p) ->
       (forall q, In q (s_procs s) -> p_pid q <> p_pid p) ->
       sys_step s (Sys (s_fs s) (s_procs s ++ [p])).
 
   Inductive reachable (s0 : sys) : sys -> Prop :=
   | ReachRefl : reachable s0 s0
   | ReachStep : forall s s', reachable s0 s -> sys_step s s' -> reachable s0 s'.
+  (* executions in which no further process starts (steps and crashes never change the number of processes) *)
+  Definition reachable_nospawn (s0 s : sys) : Prop := reachable s0 s /\ List.length (s_procs s) = List.length (s_procs s0).
 
   (* sequential runner (one process, whole writes): used to compare the model's system calls with traces of the real code *)
   Inductive tr := TMkdir (p : path) | TCreate (p : path) | TWrite (p : path) (len : nat) | TReplace (a b : path)
